@@ -67,7 +67,7 @@ end Flags
 
 /-! ## part A': allocation of the shared word
 `pt <a:w,…|-> <addr/ops;addr/ops;…> <schedule digits> => <p<site>|<site>|d,…> h=<word/health,…> p=<digits,…>`
-`ps <a:w,…|-> <addr/ops;…> => h=… p=…` (host objects created by really concurrent goroutines, calls made one thread
+`ps <a:w,…|-> <addr/ops;…> <label> => h=… p=…` (host objects created by really concurrent goroutines, calls made one thread
 after the other afterwards: the model runs the threads one after the other) -/
 section Alloc
 open MosnVerif.Model.HealthFlags MosnVerif.Model.HealthRegistry
@@ -146,7 +146,7 @@ def parseObsA (h p : String) : Option Obs :=
 
 def alloc (pre th : String) (sched : Option String) (impl : List String) : String :=
   let sc : Option (Option (List Nat)) := match sched with
-    | some s => (parseSched s).map some
+    | some s => (if s == "-" then some [] else parseSched s).map some
     | none => some none
   match parsePre pre, parseSpecs th, sc with
   | some pr, some specs, some sc =>
@@ -247,7 +247,7 @@ def run (caseToks impl : List String) : String :=
   match caseToks with
   | ["fl", init, ops, sched] => fl init ops sched impl
   | ["pt", pre, th, sched] => alloc pre th (some sched) impl
-  | ["ps", pre, th] => alloc pre th none impl
+  | ["ps", pre, th, _] => alloc pre th none impl
   | ["hc", u, h, f0, res] => hc "hc" u h f0 res impl
   | ["hd", u, h, f0, res] => hc "hd" u h f0 res impl
   | _ => "E E unknown-kind"
